@@ -186,6 +186,13 @@ VPerlin289(ev) ==
 \* perlin(p) against perlin(p, vecL(289)): the same operations for vec2 / vec4 (vec3: the two use different roundings of x / 7: no law)
 VPerlinRep289(ev) ==
     IF ~NoiseDom(ev) THEN VSkip ELSE VBool(BothOk(ev) /\ (ev.n = 3 \/ ev.r[1] = ev.r2[1]))
+\* perlin(p, rep) is as continuous as perlin(p), also where the lattice index wraps
+VPairRep(ev) ==
+    IF ~NoiseDom(ev) THEN VSkip
+    ELSE LET p == DArg(ev, 1) q == DArg(ev, 2) rep == DArg(ev, 3) f == Fm(ev) L == ev.n IN
+         IF \E i \in 1..Len(rep) : ~DIsInt(rep[i]) \/ DSign(rep[i]) <= 0 THEN VSkip
+         ELSE VBool(BothOk(ev) /\ DLe(DAbs(DSub(RVal(ev, "r"), RVal(ev, "r2"))),
+                                      DAdd(DMulInt(DvNorm1(DvSub(p, q)), PnPerlinLip(L)), DMul2k(PnEvalTol(FALSE, L, p, f), 1))))
 VPair(ev, simplex) ==
     IF ~NoiseDom(ev) THEN VSkip
     ELSE IF ~RFin(ev, "r") \/ ~RFin(ev, "r2") THEN VBad
@@ -196,6 +203,9 @@ VPair(ev, simplex) ==
          IN IF DLe(diff, lim) THEN VOk
             ELSE IF ~simplex THEN VBad
             ELSE IF L >= 3 /\ DLe(diff, DAdd(lim, PnSimplexJump(L))) THEN VKnown("KD-X14-simplex-discontinuous")
+            \* simplex(vec3) on the diagonal of a skewed cell (all coordinate differences are integers): the three-way tie of the rank
+            \* ordering gives i1 = (0,0,0), i2 = (1,1,1) - an isolated wrong value
+            ELSE IF L = 3 /\ (PnDiagTie(p) \/ PnDiagTie(q)) /\ DLe(diff, DMul2k(PnSimplexBound(3), 1)) THEN VKnown("KD-X14-simplex3-diagonal-tie")
             ELSE IF ev.t = "f64" /\ L = 3 /\ DLe(diff, DMul(DAdd(lim, PnSimplexJump(L)), PnBrokenGrad)) THEN KDs3
             ELSE VBad
 
@@ -218,6 +228,7 @@ Verdict(ev) ==
       [] ev.op = "perlin289" -> VPerlin289(ev)
       [] ev.op = "perlinRep289" -> VPerlinRep289(ev)
       [] ev.op = "perlinPair" -> VPair(ev, FALSE)
+      [] ev.op = "perlinRepPair" -> VPairRep(ev)
       [] ev.op = "simplexPair" -> VPair(ev, TRUE)
       [] OTHER -> VBad
 
